@@ -36,6 +36,11 @@ def validate(ctx: Ctx, pm: ProgramModel, rule: str, key: str, model: AObj, what:
         rep(rule, f"{key}:missing-features", where, f"{what}: features {missing[:4]} are missing from the export "
             f"(exported: {sorted(exported)[:6]})")
         return None
+    spelled = sorted(doc.raw_used - doc.raw_declared)
+    if spelled:
+        rep(rule, f"{key}:identifier-spelling", where, f"{what}: the constraints spell {spelled[:3]} but the hierarchy "
+            f"declares {sorted(doc.raw_declared)[:6]}: one entity, two identifiers")
+        return None
     stray = sorted(doc.constraint_names() - exported)
     if stray:
         rep(rule, f"{key}:undeclared-name", where, f"{what}: the constraints name {stray[:3]}, which the feature "
@@ -120,14 +125,10 @@ def check(pm: ProgramModel, ctx: Ctx) -> None:
     validate(ctx, pm, "C11-OPS", "operator:NOT", ctc_model(mb, [("c", n(o("NOT"), n("A"))), ("d", n(o("NOT"), n(o("NOT"), n("B"))))]),
              "negation constraints")
     # one identifier per entity -----------------------------------------------------------------------------
-    for cls_ in ("space", "punct", "unicode"):
+    from ..codec import name_model
+    for cls_ in ("plain", "space", "punct", "unicode", "digit-first", "underscore-first", "digits", "case-variant"):
         nm = NAME_CLASSES[cls_]
-        root = mb.feature("Root")
-        f = mb.feature(nm)
-        mb.relation(root, [f], 0, 1)
-        mb.relation(root, [mb.feature("Plain")], 0, 1)
-        m = mb.model(root, [mb.constraint("c", n(o("IMPLIES"), n(nm), n("Plain")))])
-        validate(ctx, pm, "C11-ONEENC", f"feature-name:{cls_}", m, f"feature named {nm!r}")
+        validate(ctx, pm, "C11-ONEENC", f"feature-name:{cls_}", name_model(mb, nm), f"feature named {nm!r}")
     wc = pm.cls(W)
     where = loc(wc.unit.path, wc.node)
     for key, aname in (("plain", "cost"), ("space", "unit cost"), ("punct", "cost-eur")):
